@@ -36,6 +36,7 @@ func buildProperties() []Property {
 			Decides:    "the clause 'text measured in characters, not bytes': in the atom-processing builtins (resolved from the registration calls) a string obtained from an atom is measured and indexed only through []rune or range offsets; its byte length feeds only capacities and zero tests; it is sliced only at offsets produced by ranging over the same string. Every built-in inspects the dynamic type of an argument only after resolving it (mode discrimination is made on the resolved term); no cutset-taking strings function is given computed text.",
 			NotDecided: "completeness and exactly-once enumeration in every mode - behavioural.",
 			Rules: []RuleDef{
+				{"R-ATOM-CANONICAL", 1, ruleAtomCanonical},
 				{"R-CODE-NARROW", 5, ruleCodeNarrow},
 				{"R-TAIL-CDR", 1, ruleTailCdr},
 				{"R-TRIM-CUTSET", 1, ruleTrimCutset},
@@ -65,6 +66,7 @@ func buildProperties() []Property {
 			Decides:    "for every ordered pair of concrete term representations the Compare method, partially evaluated under 'the resolved argument has that dynamic type', returns exactly the constant the documented class order dictates, antisymmetrically (cross-class totality and antisymmetry; transitivity follows from a consistent rank); same-class pairs reach a value comparison; keysort/2 uses a stable sort; sort/2 and setof/3 share one set constructor that orders and deduplicates with Term.Compare. While a consumer tests a Compare result against -1 or 1, every member of the Compare family returns only -1, 0, 1 or another member's result; comparison inspects terms only after resolution.",
 			NotDecided: "ordering within a class (atoms by text, compounds by arity/name/args, numeric values), and that different encodings of the same list compare equal.",
 			Rules: []RuleDef{
+				{"R-ATOM-CANONICAL", 1, ruleAtomCanonical},
 				{"R-FLOAT-FINITE", 1, ruleFloatFinite},
 				{"R-RESOLVE-ALL", 9, ruleResolveAll("C08")},
 				{"R-COMPARE-MATRIX", 100, ruleCompareMatrix},
@@ -248,6 +250,7 @@ func buildProperties() []Property {
 			Decides:    "a failed unification leaves no binding (environments are persistent: every Env store targets a node private to the writer); unify_with_occurs_check applies the check at every depth and before every bind; atomic terms are compared with a total non-panicking equality; every slice/string encoding of a list reports './2 through the Compound interface. The occurs check recurses into the referent of a bound variable and into every argument; the dynamic type of a term is inspected only after resolution; functor-name comparisons are paired with arity.",
 			NotDecided: "most-generality, symmetry, idempotence, and that Arg(n) of the four list encodings denotes the same abstract argument (algebraic laws over all term pairs).",
 			Rules: []RuleDef{
+				{"R-ATOM-CANONICAL", 1, ruleAtomCanonical},
 				{"R-TAIL-CDR", 1, ruleTailCdr},
 				{"R-FUNCTOR-ARITY", 35, ruleFunctorArity},
 				{"R-RESOLVE-ALL", 24, ruleResolveAll("C02")},
